@@ -163,7 +163,10 @@ def check_grid(project: Project, rep):
                           and len(x.args) >= 2 and ast.unparse(expand_locals(f, x.args[1])) == v for x in ast.walk(f))
         num_ok = n == f"{owner}.num_steps" or row_len
         ep_ok = ep is None or (isinstance(ep, ast.Constant) and ep.value is True)
-        if e == f"{owner}.stop" and num_ok and ep_ok:
+        if e == f"{owner}.stop" and ep_ok and not num_ok and n and n.startswith("len(") and q.endswith("approx_simple"):
+            rep.unmodelled("GL-GRID", fi, c, f"the number of grid nodes is `{n}`; whether that is the row being plotted could "
+                                             f"not be followed")
+        elif e == f"{owner}.stop" and num_ok and ep_ok:
             rep.discharged("GL-GRID", fi, c, f"grid = np.linspace({s}, {e}, {n}) with the default end-point convention")
         else:
             why = []
